@@ -33,7 +33,7 @@ const fnSegSeg = "(github.com/tidwall/geojson/geometry.Segment).IntersectsSegmen
 func kernelJobs() []Job {
 	var out []Job
 	for _, h := range []string{"H_K_Raycast", "H_K_RaycastReverse", "H_K_Strip", "H_K_Contains", "H_K_SegRect", "H_K_SpecSym"} {
-		out = append(out, Job{Pkg: "geometry", Harness: h, Timeout: 120, Scale: true})
+		out = append(out, Job{Pkg: "geometry", Harness: h, Timeout: 120, Scale: true, Unwind: 6})
 	}
 	// IntersectsSegment == spec over all reals: path-wise through the implementation, Raycast replaced by its
 	// contract (K1/K2 above); symmetry then follows from the symmetry of the spec (H_K_SpecSym).
@@ -96,7 +96,7 @@ func init() {
 func raycastLemmaJobs() []Job {
 	var out []Job
 	for _, h := range []string{"H_K_Raycast", "H_K_CrossLemma"} {
-		out = append(out, Job{Pkg: "geometry", Harness: h, Timeout: 120, Scale: true, Note: "lemma relied on by contract-mode jobs"})
+		out = append(out, Job{Pkg: "geometry", Harness: h, Timeout: 120, Scale: true, Unwind: 6, Note: "lemma relied on by contract-mode jobs"})
 	}
 	return out
 }
@@ -577,6 +577,8 @@ func init() {
 			add(2, 0, 0, dims, -1, 0, 1)  // line with no positions
 			add(2, 1, 0, dims, 0, 2, 0)   // line with one position
 			add(6, 0, 0, dims, -1, 0, 0)  // feature wrapping an empty line
+			add(9, 0, 0, 0, -1, dims, 2)  // collection whose children are all empty
+			add(10, 0, 0, 0, -1, 1, dims) // feature collection with one empty feature
 			add(7, 3, 3, dims, 0, 1, 3)
 			add(8, 3, 0, dims, 0, 0, 2)
 		}
